@@ -129,15 +129,20 @@ class ForwardSDE(BaseSDE):
         with torch.enable_grad():
             y = y if y.requires_grad else y.detach().requires_grad_(True)
             g = self.g(t, y)
-            vg_dg_vjp, = misc.vjp(
-                outputs=g,
-                inputs=y,
-                grad_outputs=g * v2.unsqueeze(-2),
-                retain_graph=True,
-                create_graph=requires_grad,
-                allow_unused=True
+            # The Milstein term is the derivative of each diffusion column in the direction of that column, i.e. a
+            # Jacobian-vector product; the vector-Jacobian product coincides with it only for a symmetric Jacobian.
+            gdg_jvp = sum(
+                misc.jvp(
+                    outputs=g[..., col_idx],
+                    inputs=y,
+                    grad_inputs=g[..., col_idx] * v2[..., col_idx].unsqueeze(-1),
+                    retain_graph=True,
+                    create_graph=requires_grad,
+                    allow_unused=True
+                )[0]
+                for col_idx in range(g.size(-1))
             )
-        return self.prod(g, v1), vg_dg_vjp
+        return self.prod(g, v1), gdg_jvp
 
     def g_prod_and_gdg_prod_diagonal(self, t, y, v1, v2):
         requires_grad = torch.is_grad_enabled()
